@@ -8,6 +8,7 @@ import impl
 
 PID = "C03"
 LEAN_MODULES = ["BtcHd.Props.C03", "BtcHd.Props.RealInst.C03"]
+LEAN_MODULES_THOROUGH = ['BtcHd.Props.TrWallet']
 TRUSTED_BASE = common.CORE_TRUSTED + [
     "NFKD is a parameter of the model: CPython's unicodedata supplies the normalised strings with every operation; "
     "PBKDF2-HMAC-SHA512 and HMAC-SHA512 are parameters of the theorems, the driver's concrete versions are compared "
